@@ -256,7 +256,10 @@ impl<'a> Evaluator<'a> {
                     SymbolData::Placeholder => None,
                 }))
             }
-            ExpressionFactor::Number { value: number, .. } => Ok(Some(number.data.value().into())),
+            ExpressionFactor::Number { value: number, .. } => match number.data.try_value() {
+                Some(value) => Ok(Some(value.into())),
+                None => self.error(number.span, format!("number out of range: {}", number.data)),
+            },
             ExpressionFactor::InterpolatedString(i) => {
                 Ok(Some(SymbolData::String(self.interpolate(i, track_usage)?)))
             }
